@@ -3,7 +3,9 @@ import JF.Num.Ops
 Model of the cuboid cell systems
 
 * `jellyfysh/activator/internal_state/cell_occupancy/cells/cells.py`                (`Cell`)
-* `jellyfysh/activator/internal_state/cell_occupancy/cells/cuboid_cells.py`         (`CuboidCells`, `_next_float_up/down`)
+* `jellyfysh/activator/internal_state/cell_occupancy/cells/cuboid_cells.py`         (`CuboidCells` with
+  `_cell_identifier` — the clamped digit used by `position_to_cell` and the constructor's stepping loops, whose upper
+  stepping is bounded by the system length —, `_next_float_up/down`)
 * `jellyfysh/activator/internal_state/cell_occupancy/cells/cuboid_periodic_cells.py` (`CuboidPeriodicCells`)
 * `HypercuboidPeriodicBoundaries.correct_position_entry` (`r = x % L; r if r != L else 0.0`, via `JF.pywrap`)
 
